@@ -152,7 +152,7 @@ PROPS["C14"] = dict(
          "must make load return Err, through a plain reader and a 3-byte short-read reader; skip_option over every prefix of Some(value) (and of Option values as serialized) must return Err unless complete, in which case the reader "
          "stands exactly at the end; every write budget 0..=size with a sink that accepts the budget in <=3-byte chunks (and in one piece) and then fails must make serialize return that error; every 8-byte truncation of the file "
          "must make the mapped view of the value be refused; serialize_to(file) under every RLIMIT_FSIZE limit (8-byte steps and unaligned neighbours) must return Err or leave the complete file, and load_from of every truncated file must return Err. Buffered writers: IntVectorWriter / RawVectorWriter scenarios under EVERY RLIMIT_FSIZE limit (step 8 bytes plus unaligned ones, SIGXFSZ ignored) must end in Err from new, "
-         "the documented push panic, or Err from close - or report success with a byte-identical complete file; with the limit still in force, a writer that still reports is_open() after a caught push panic or after a failed close() must return Err from the next close() (an Ok would claim a complete file; a writer that closed itself on the failure has reported it). Each fault point is a distinct case by construction.",
+         "the documented push panic, or Err from close - or report success with a byte-identical complete file; with the limit still in force, close() after a caught push panic and a second close() after a failed one must again be Err (never reporting success for an incomplete file is taken literally: any Ok from close() claims a complete file). Each fault point is a distinct case by construction.",
     bounds={"quick": "144-value catalogue (52 312 byte fault points x load/skip/budget), 275 map truncations, 45 writer scenarios x every limit (4 326 limits below the final size)", "thorough": "extended catalogue, every byte of every value, 75 writer scenarios"},
     require_counters={"quick": {"writer_limits_below_final_size": 500, "mapped_truncations": 100}, "thorough": {"writer_limits_below_final_size": 500, "mapped_truncations": 100}},
     assumptions=[HOOK_ASSUMPTION, "a sink answering Interrupted is not part of the fault alphabet (retry-on-interrupt is std's write_all behaviour, not a stated guarantee)", "a writer that is dropped without close() ignores errors by documentation; only close() is held to the property"],
